@@ -126,6 +126,7 @@ class Ctx:
     def __init__(self):
         self.w = None
         self.n = 0
+        self.cache = {}
 
     def world(self):
         if self.w is None:
@@ -284,6 +285,37 @@ def run_case(r, ctx):
         asl = S.SM("A", A=S.T("f", ResultPath="$.r", **after), **tailst)
         status, err, outlen = run_exec(asl, inp, oracle=lambda fn, p, k: {"ok": res}, typ=typ)
         return obs_quota(point, len(dumps(out)), len(compact(out)), status == "SUCCEEDED", err, 0, term, recipe=r)
+    if point == "Catch.output":
+        # a failing state whose Catcher places the Error Output into a large (legal) input: only the state's OUTPUT is large
+        cat = [{"ErrorEquals": ["States.ALL"], "ResultPath": "$.error", "Next": "Z"}]
+        if variant == "parallel":
+            main = S.Par([S.SM("I", I=S.T("f", End=True))], Catch=cat, Next="Z")
+        elif variant == "map":
+            main = dict(S.Mp(S.SM("I", I=S.T("f", End=True)), ItemsPath="$.items", Catch=cat, Next="Z"))
+        else:
+            main = S.T("f", Catch=cat, Next="Z")
+        asl = S.SM("A", A=main, Z=S.P(Parameters={"e.$": "$.error"}, End=True))
+        boom = lambda fn, p, k: {"error": "Boom", "cause": "b"}
+        key = "catch-" + variant
+        if key not in ctx.cache:
+            # the Error Output does not depend on the input: read it off a small run
+            w = W.World(tag="c16", oracle=boom)
+            try:
+                w.rec.enabled = False
+                w.add_worker("f")
+                arn = w.add_sm("m", asl, "STANDARD")
+                w.start_raw(arn, {"i": "", "items": [1]}, name="e")
+                w.run()
+                ctx.cache[key] = json.loads((w.outcome(W.exec_arn("m", "e")) or {})["output"])["e"]
+            finally:
+                w.close()
+        eo = ctx.cache[key]
+        probe = {"i": "", "items": [1], "error": eo}
+        inp = {"i": "x" * (n - len(dumps(probe))), "items": [1]}
+        out = dict(inp, error=eo)
+        assert len(dumps(out)) == n and len(dumps(inp)) <= L_DATA
+        status, err, outlen = run_exec(asl, inp, oracle=boom, typ=typ)
+        return obs_quota(point, len(dumps(out)), len(compact(out)), status == "SUCCEEDED", err, 0, False, recipe=r)
     if point in ("Map.output", "Parallel.output"):
         item = value_of(r["value"], n - 2)          # the output is [item]
         out = [item]
@@ -424,6 +456,10 @@ def recipes(thorough, rng):
             for n in sizes:
                 if n >= 100:
                     R.append({"point": "Task.output", "n": n, "terminal": term, "typ": typ})
+            if not term:
+                for variant in ("task", "parallel", "map"):
+                    for n in window(L_DATA) + [L_DATA // 2, L_DATA + 100]:
+                        R.append({"point": "Catch.output", "variant": variant, "n": n, "typ": typ})
             for form in ("compact", "padded"):
                 for n in window(L_DATA) + [L_DATA + 1000]:
                     R.append({"point": "Task.reply", "value": "obj", "n": n, "form": form, "terminal": term, "typ": typ})
